@@ -13,7 +13,7 @@ PLAN = {
     'C06': dict(level='proof', engines=['forward', 'segnative', 'tasknative', 'matchnative']),
     'C07': dict(level='proof', engines=['tasknative', 'matchnative']),
     'C08': dict(level='proof', engines=['segnative', 'tasknative', 'multipitchnative']),
-    'C09': dict(level='proof', engines=['chordnative', 'keynative']),
+    'C09': dict(level='proof', engines=['chordnative', 'keynative', 'tasknative']),
     'C10': dict(level='proof', engines=['chordre']),
     'C11': dict(level='proof', engines=['chordnative']),
     'C12': dict(level='proof', engines=['sumlib', 'segnative', 'hiernative']),
